@@ -212,6 +212,8 @@ def run_seedcache(spec: dict, rec: Recorder) -> None:
         rk = online.root_key(rng, rng.choice(common.HASHES), "DH")
         l0 = rng.randrange(340, 700)
         a, b = rng.randrange(1, 32), rng.randrange(0, 32)
+        if rnd % 3 == 2:
+            a = 0  # the first L1 interval of an L0: the DC's envelope then has no L1 key at all
         cfg = DCConfig({rkid: rk}, rkid, now=(l0, 31, 31), security="scripted")
         cfg.l2_key_absent_at_31 = rng.random() < 0.5
         core = DCCore(cfg)
